@@ -110,6 +110,9 @@ def run_variant(scn, base, variant, listing):
               "under_meta_chars": os.path.join("Card [A001] x*y?", "(b)+{c}^$ \u00e9\u6587"),
               "under_user_pattern": {"*.tmp": "x.tmp", "parent*": "parent1", "x?": "xy"}.get(scn.get("user_pattern") or "", "plain2")}.get(variant, variant)
     pdir = os.path.join(base, parent)
+    if variant == "other_fs":
+        shutil.rmtree(os.path.join(other_fs_dir(), "c13"), ignore_errors=True)
+        pdir = os.path.join(other_fs_dir(), "c13", "r0")
     os.makedirs(pdir, exist_ok=True)
     root = os.path.join(pdir, "r")
     os.mkdir(root)
@@ -133,10 +136,29 @@ def run_variant(scn, base, variant, listing):
     return root, [o for o, _ in outcomes]
 
 
+_OTHER = []
+
+
+def other_fs_dir():
+    """a scratch folder on a file system other than the one the scratch root (and the system's temp folder) is on, or None"""
+    import tempfile
+    if not _OTHER:
+        _OTHER.append(None)
+        here = {os.stat(tempfile.gettempdir()).st_dev, os.stat(os.environ.get("VERIF_SCRATCH", tempfile.gettempdir())).st_dev}
+        for cand in (os.environ.get("VERIF_OTHER_FS"), "/dev/shm", "/run/shm", "/var/tmp", os.path.expanduser("~")):
+            try:
+                if cand and os.path.isdir(cand) and os.access(cand, os.W_OK) and os.stat(cand).st_dev not in here:
+                    _OTHER[0] = tempfile.mkdtemp(prefix="vhC13_", dir=cand)
+                    break
+            except OSError:
+                continue
+    return _OTHER[0]
+
+
 VARIANTS = ["under_ascmhl", "under_ascmhl_deep", "under_user_pattern", "under_meta_chars", "trailing_slash", "relative", "dot_slash", "dot_end", "cwd_dot"]
 LISTINGS = [("reversed", 0), ("shuffled", 1), ("shuffled", 2)]
 RULE = ("the same tree (equalised mtimes, frozen clock) with nested child histories sealed by the same command sequence at a reference location and (a) under a parent folder "
-        "named ascmhl / ascmhl/nested / matching the user's own -i pattern, with a trailing slash, by relative path, as ./r/, as r/. and as . from inside the folder ; (b) with os.listdir / os.scandir returning "
+        "named ascmhl / ascmhl/nested / matching the user's own -i pattern, with a trailing slash, by relative path, as ./r/, as r/. and as . from inside the folder, and on another file system than the temp folder (/dev/shm here, when there is one) ; (b) with os.listdir / os.scandir returning "
         "entries reversed and shuffled; every file of every ascmhl folder must be byte-identical to the reference run; a copy of the sealed tree verifies with exit 0 at "
         "another location (verify and diff). The reference run is also compared step by step with the extracted model. Non-trivial: the tree has nested histories or "
         "more than one entry per folder.")
@@ -167,6 +189,10 @@ def check(rep, tier, seed):
                 rep.disagree({"scenario": mscn, "step": d[0]}, d[2], d[1], f"model and implementation differ at step {d[0]}")
             runs = [(v, ("sorted", 0)) for v in (VARIANTS if tier == "thorough" or i % 2 == 0 else list(dict.fromkeys(rng.sample(VARIANTS, 3) + ["under_meta_chars"])))]
             runs += [("order_%s%d" % l, l) for l in LISTINGS]
+            if other_fs_dir() is not None and (tier == "thorough" or i % 2 == 1):
+                runs.append(("other_fs", ("sorted", 0)))        # the same tree on another file system than the system's temp folder
+            elif other_fs_dir() is None:
+                rep.count("variant.other_fs.unavailable")
             for v, listing in runs:
                 rep.count("variant." + v.split("_")[0])
                 root, out = run_variant(scn, base, v, listing)
@@ -174,6 +200,8 @@ def check(rep, tier, seed):
                 if out != ref_out:
                     rep.violate("exit-codes-differ:" + v.rstrip("012"), {"scenario": scn, "variant": v}, ref_out, out, f"create outcomes differ between the reference location and variant {v}")
                     continue
+                if v == "other_fs":
+                    shutil.rmtree(os.path.join(other_fs_dir(), "c13"), ignore_errors=True)
                 if got != ref:
                     diff = sorted(k for k in set(got) | set(ref) if got.get(k) != ref.get(k))
                     k = diff[0]
@@ -192,6 +220,9 @@ def check(rep, tier, seed):
     finally:
         model.close()
         scratch.cleanup()
+        if _OTHER and _OTHER[0]:
+            shutil.rmtree(_OTHER[0], ignore_errors=True)
+            _OTHER.clear()
 
 
 def replay(rep, data):
